@@ -151,7 +151,8 @@ func c20Muts(m protoreflect.Message, prefix []pstep, name string) []c20Mut {
 				}
 			})
 		case fd.IsList() && fd.Kind() == protoreflect.StringKind:
-			for _, v := range [][]string{{}, {""}, {"/x"}, {"Wallet 1/("}, {"Wallet 1/[", "Wallet 1"}, {"Unknown"}, {"Wallet 1/.*"}, {strings.Repeat("W", 70000)}} {
+			for _, v := range [][]string{{}, {""}, {"/x"}, {"Wallet 1/("}, {"Wallet 1/[", "Wallet 1"}, {"Unknown"}, {"Wallet 1/.*"}, {strings.Repeat("W", 70000)},
+				{"Wallet 1/^"}, {"Wallet 1/$"}, {"Wallet 1/^$"}, {"Wallet 1/$^"}, {"^"}, {"$"}, {"Wallet 1/\\"}, {"Wallet 1/*"}, {"Wallet 1/(?"}, {"Wallet 1/|"}, {"Nowhere/^", "Wallet 1/$"}, {"Wallet 1//"}, {"/"}, {"//"}} {
 				v := v
 				set(fmt.Sprintf("%q", truncStrs(v)), func(mm protoreflect.Message, fd protoreflect.FieldDescriptor) {
 					l := mm.Mutable(fd).List()
@@ -183,7 +184,9 @@ func c20Muts(m protoreflect.Message, prefix []pstep, name string) []c20Mut {
 			}
 			out = append(out, c20Mut{Desc: fname + "=present-with-length-0", RawEmpty: path})
 		case fd.Kind() == protoreflect.StringKind:
-			for _, v := range []string{"", "Unknown/acc", "NoSlash", "/leading", "Wallet 1/", "Wallet 1/(", "Wallet 1/.*", "Wallet 1/Unknown", "Wallet 3/x", strings.Repeat("a/", 40000)} {
+			for _, v := range []string{"", "Unknown/acc", "NoSlash", "/leading", "Wallet 1/", "Wallet 1/(", "Wallet 1/.*", "Wallet 1/Unknown", "Wallet 3/x", strings.Repeat("a/", 40000),
+				// expressions made of regular-expression metacharacters only
+				"Wallet 1/^", "Wallet 1/$", "Wallet 1/^$", "Wallet 1/$^", "^", "$", "Wallet 1/[", "Wallet 1/\\", "Wallet 1/*", "Wallet 1/(?", "Wallet 1/|", "^/^"} {
 				v := v
 				set(fmt.Sprintf("%q", truncStr(v)), func(mm protoreflect.Message, fd protoreflect.FieldDescriptor) {
 					mm.Set(fd, protoreflect.ValueOfString(v))
@@ -886,7 +889,7 @@ func C20(tier string) int {
 	run.Coverage = map[string]any{
 		"evaluations":         done,
 		"distinct_nontrivial": len(perRPC),
-		"rule":                "for every RPC of Signer, Lister, AccountManager and WalletManager (as an authorised client) and of the key-generation service (as a non-peer, and Prepare as a peer): the default well-formed message and every message with one field off default (two in thorough): bytes absent / present with length 0 (hand-encoded) / 1,3,4,31,32,33,48,96,4096; numbers 0,1,2^31,2^32-1,2^63,2^64-1; sub-messages absent; names empty, unknown, without slash, leading slash, regex meta, 80 kB; batches of 0,1,2,65,1000 entries incl. an empty entry; each marshalled, decoded by the real protobuf library and handed to the real handler in a worker process under a 16 GiB address-space limit; after each case an ordinary signing request must be answered; plus, on three real instances that talk over the real gRPC transport (real API servers and real sender on loopback addresses, own certificate authority), five kinds of failing distributed-generation requests sent 40 times in a row each, after which an ordinary generation started on each instance must be answered; distinct = RPCs exercised",
+		"rule":                "for every RPC of Signer, Lister, AccountManager and WalletManager (as an authorised client) and of the key-generation service (as a non-peer, and Prepare as a peer): the default well-formed message and every message with one field off default (two in thorough): bytes absent / present with length 0 (hand-encoded) / 1,3,4,31,32,33,48,96,4096; numbers 0,1,2^31,2^32-1,2^63,2^64-1; sub-messages absent; names empty, unknown, without slash, leading slash, regular-expression metacharacters alone and in pairs (^ $ ^$ [ \\ * (? |), 80 kB; batches of 0,1,2,65,1000 entries incl. an empty entry; each marshalled, decoded by the real protobuf library and handed to the real handler in a worker process under a 16 GiB address-space limit; after each case an ordinary signing request must be answered; plus, on three real instances that talk over the real gRPC transport (real API servers and real sender on loopback addresses, own certificate authority), five kinds of failing distributed-generation requests sent 40 times in a row each, after which an ordinary generation started on each instance must be answered; distinct = RPCs exercised",
 		"samples":             samples,
 		"exhaustive":          from >= len(cases),
 		"cases":               len(cases),
